@@ -28,6 +28,12 @@ VDIR = "/virt"
 RULE = ("generated: benign programs of 1-12 statements (tools/faults.benign_program, seeded); every fault kind of tools/faults.py "
         "(%d kinds: parse-time critical, parse-time non-critical, compile-time, evaluation-time) planted before every statement position "
         "and at the end, preceded by one of %d lead texts (tabs, blanks, comment lines with non-ASCII text, a label, a Cyrillic string); "
+        "%d of the kinds are the generated family 'fault inside an instruction operand': addressing mode (#e, @#e, e(rN), @e(rN), e(sp), e(%%n), e, @e) "
+        "x expression shape (number, unparenthesised sum / spaced sum / difference chain with a symbol / product-then-sum / sum-then-product in front of the register, "
+        "(group), <group>, signed number, negated group, complement, division / modulo by zero alone and beside a sum, negative shifts, undefined symbol first / last / negated) "
+        "x operand slot (source, destination, single operand, jsr target, byte instruction, FP11 instruction, inside '.repeat'), identifiers value-out-of-bounds / "
+        "arithmetic-error / undefined-symbol: the culprit is the marked part of the expression AS WRITTEN, also when the reported token was rebuilt at encode time "
+        "('a OP b(rN)' hoisted to '(a OP b)(rN)': start at the first character of 'a', end at the last of 'b'); quick plants each kind of this family at every 4th position (rotating), thorough at all; "
         "cross-file: %d kinds whose diagnostic carries locations in TWO files (duplicate exports by '::', '==', '.extern', '.extern all'; second '.link'), "
         "under file names sorting both ways (a/b, z/b, lib/main, main/lib), both link orders where the kind allows it, and with the culprit in an included file; "
         "the leading locations of the first diagnostic must be (culprit token in its file, previous declaration in the other file) in the report site's order; "
@@ -39,13 +45,14 @@ RULE = ("generated: benign programs of 1-12 statements (tools/faults.benign_prog
         "rotating so that every kind meets every role. All spans of all diagnostics are judged. A seeded subset runs the real CLI with "
         "--report-format=bare -Wall in a scratch directory and the 'file:line:col' prefix of the first output line is judged. "
         "non-trivial = distinct (kind, role, position, lead, program) whose assembly produced at least one diagnostic"
-        % (len(faults.KINDS), len(faults.LEADS), len(faults.CROSS)))
+        % (len(faults.KINDS), len(faults.LEADS), sum(1 for _k in faults.KINDS.values() if _k.family == "operand"), len(faults.CROSS)))
 LEVEL_TEXT = ("Coq theorems (unbounded texts and offsets): Context.__repr__'s line:column arithmetic equals the Spec character walk "
               "(newline -> next line column 1, tab -> +4, other -> +1); the position lies inside the file; offsets in order give positions "
               "in order; the bare format prints the start position. PARTIAL: that each report site passes the offending token's span in the "
               "right file is not a theorem; it is tied by the planted-fault correspondence described in 'rule', judged in coqc.")
 LEVEL_NOTE = ("Trusted: Coq kernel + vm_compute, the planted-fault harness (tools/faults.py: what the culprit token of each kind is, "
-              "set per kind from reading the report site), Spec/LineCol.v, tools/impl.py span capture. Print Assumptions: closed under the global context.")
+              "set per kind from reading the report site; for the generated operand family: the marked sub-expression as written in the source, "
+              "start and end both judged, independent of how insns.py rebuilds the index expression), Spec/LineCol.v, tools/impl.py span capture. Print Assumptions: closed under the global context.")
 TECHNIQUE = "Coq proof of the position arithmetic + planted-fault model/implementation correspondence judged in coqc"
 ASSUME = ["the culprit token recorded per fault kind in tools/faults.py is the token a reader would call the culprit (documented per kind where the "
           "report site passes the whole statement or the mnemonic by design)",
@@ -196,6 +203,8 @@ def plan_tree(tier, seed):
         # the fault in the SECOND file for every kind in quick as well: that is where a stale parse shows
         if tier == "quick":
             for ki, kind in enumerate(kinds):
+                if faults.KINDS[kind].family == "operand" and ki % 3:
+                    continue
                 if TREE_VARIANTS[ki % 4] not in ("second-only", "linked-dirs"):
                     out.append(("second-only" if ki % 2 else "linked-dirs", kind, soft[0], 2, ki % 3, (ki + 5) % len(faults.LEADS)))
     return out
@@ -234,6 +243,10 @@ def plan(tier, seed):
         for pi, n in enumerate(sizes):
             for ki, kind in enumerate(kinds):
                 for pos in range(n + 1):
+                    # the generated operand family (mode x expression x slot, tools/faults.py) is large: quick plants each of its
+                    # kinds at every 4th position (rotating with the kind, so all positions, leads and roles are met across the family)
+                    if faults.KINDS[kind].family == "operand" and (ki + pos + pi) % 4:
+                        continue
                     out.append((kind, pi, n, pos, (ki + 3 * pos + pi) % len(faults.LEADS), ROLES[(ki + pos + pi) % 3]))
     else:
         sizes = list(range(1, 13))
